@@ -95,7 +95,7 @@ def run(ctx):
             gz = [0, 1, 0, 2, 0, 3][i % 6]
             if i % 40 == 7:
                 failing_read(tmp)          # an unrelated, failing read just before this one
-            ext = EXTS[i % len(EXTS)]                  # compression never follows the name
+            ext = EXTS[(i + i // 6) % len(EXTS)]       # compression never follows the name: every (extension, compression) pair occurs, plain content named *.gz too
             path = write_file(tmp, f's{i}{ext}', data, gz)
             try:
                 got, dt = real_sig(path)
